@@ -470,12 +470,29 @@ def _api_facts() -> str:
         if isinstance(n, ast.Call) and ast.unparse(n.func) == "self.load_from_path":
             om = next((k.value for k in n.keywords if k.arg == "only_models"), None)
             only_models = isinstance(om, ast.Constant) and om.value is True
+    # every `self.checkpointer.load(…)` of Engine.train sits directly under `if resume:` (and there is exactly one)
+    loads = []
+
+    def walk_tests(stmts, tests):
+        for st in stmts:
+            if isinstance(st, ast.If):
+                walk_tests(st.body, tests + [ast.unparse(st.test)])
+                walk_tests(st.orelse, tests + ["not (" + ast.unparse(st.test) + ")"])
+            elif isinstance(st, (ast.For, ast.While, ast.With, ast.Try)):
+                walk_tests(st.body, tests + ["<" + type(st).__name__ + ">"])
+            else:
+                for n in ast.walk(st):
+                    if isinstance(n, ast.Call) and ast.unparse(n.func) == "self.checkpointer.load":
+                        loads.append(tests)
+    walk_tests(find_function(en, "Engine.train").body, [])
+    resume_only = loads == [["resume"]]
     b = lambda v: "true" if v else "false"  # noqa: E731
     names = ", ".join('"' + k + '"' for k in _kw_names(tc) if not k.startswith("__"))
     return (f"{{ ctorUnwrapsMain := {b(unwrap_main)}, ctorUnwrapsRegexKeys := {b(unwrap_regex)}, saveGuarded := {b(save_guarded)}, "
             f"trainWritesOnMainOnly := {b(main_only)}, predictNeverWrites := {b(predict_never)}, "
             f"loadListsDirectory := {b(lists)}, missingKeysRaise := {b(missing_raise)}, "
-            f"modelsFromFileOnlyModels := {b(only_models)}, trainCheckpointables := [{names}] }}")
+            f"modelsFromFileOnlyModels := {b(only_models)}, resumeOnlyWhenAsked := {b(resume_only)}, "
+            f"trainCheckpointables := [{names}] }}")
 
 
 def _solver_steps(fn: ast.FunctionDef) -> str:
